@@ -529,3 +529,128 @@ ANCHORS = [('swh/model/swhids.py', '_BaseSWHID.*'),
            ('swh/model/swhids.py', '_parse_path_qualifier'),
            ('swh/model/hashutil.py', 'hash_to_hex'),
            ('swh/model/hashutil.py', 'hash_to_bytes')]
+
+
+# the case stream is ordered by family: coq_cases gets every case and keeps a spread of each family (it shrinks the list it
+# is given IN PLACE: the evidence's `n` is the number evaluated)
+COQ_SAMPLE = 1 << 30
+
+
+def coq_cases(cases):
+    """mk_core / mk_ext / mk_q, print_core / print_q, parse_core / parse_ext / parse_q, to_extended / to_qualified and the
+    recognisers lang_core / lang_ext / lang_q evaluated by vm_compute inside Coq vs the extracted driver; one checksum per case
+    over its driver requests.  The Coq terms are built from the very request lines the driver receives."""
+    from . import core
+    fam = {"core": [], "ext": [], "q": []}
+    for c in cases:
+        fam["q" if c["k"] not in ("core", "ext") else c["k"]].append(c)
+    def spread(l, n):
+        return l[::max(1, len(l) // n)][:n] if l else []
+    picked = spread(fam["core"], 6) + spread(fam["ext"], 6) + spread(fam["q"][:900], 20) + spread(fam["q"][900:], 8)
+    chosen = []
+    for c in picked:
+        rqs = requests(c)             # runs the implementation: the recogniser is applied to the implementation's own text
+        c.pop("_lang", None)
+        if sum(len(r) for r in rqs) <= 3000:
+            chosen.append((c, rqs))
+    cases[:] = [c for c, _ in chosen]
+
+    def txt(t):
+        return "[" + "; ".join("%d" % x for x in (untok_text(t) or [])) + "]%N"
+    def word(w):
+        return "[" + ("" if w == "." else "; ".join("%d" % ord(ch) for ch in w)) + "]%N"
+    def hexl(h):
+        return "[" + "; ".join("%d" % b for b in core.unhx(h)) + "]%N"
+    def opt(s, f):
+        return "None" if s == "-" else "(Some %s)" % f(s)
+    def corel(s):
+        t, h = s.split(":")
+        return "(mkCore %s %s)" % (word(t), hexl(h))
+    def lines(s):
+        p = s.split(":")
+        return "((%s)%%Z, %s)" % (p[0], "None" if len(p) == 1 else "Some (%s)%%Z" % p[1])
+    def term(rq):
+        w = rq.split(" ")
+        if w[0] == "c":
+            return "c_case %s %s %s" % ("true" if w[1] == "ext" else "false", word(w[2]), hexl(w[3]))
+        if w[0] == "q":
+            return "q_case %d%%N %s %s %s %s %s %s %s" % (int(w[1]), word(w[2]), hexl(w[3]), opt(w[4], txt), opt(w[5], corel),
+                                                         opt(w[6], corel), opt(w[7], hexl), opt(w[8], lines))
+        return "lang_case (%s %s)" % ({"core": "lang_core", "ext": "lang_ext"}.get(w[1], "lang_q"), txt(w[2]))
+    src = ("From Coq Require Import List NArith ZArith.\nFrom SWH.lib Require Import Bytes.\nFrom SWH.model Require Import Swhid.\n"
+           "Import ListNotations.\n" + core.COQ_CHECKSUM + """
+Definition zz (x : Z) : list N := [if (x <? 0)%Z then 1%N else 0%N; Z.abs_N x].
+Definition en (e : err) : N := match e with EValidation => 1 | EValue => 2 | EType => 3 | EAssertion => 4 end%N.
+Definition ot (o : option (list N)) : list N := match o with Some l => 360%N :: l | None => [361%N] end.
+Definition sc (c : core) : list N := c_ty c ++ [362%N] ++ c_oid c.
+Definition oc (o : option core) : list N := match o with Some c => 360%N :: sc c | None => [361%N] end.
+Definition sl (o : option (Z * option Z)) : list N := match o with
+  | None => [361%N] | Some (a, None) => 363%N :: zz a | Some (a, Some b) => 364%N :: zz a ++ zz b end.
+Definition sq (v : qualified) : list N :=
+  q_ty v ++ [362%N] ++ q_oid v ++ ot (q_origin v) ++ oc (q_visit v) ++ oc (q_anchor v) ++ ot (q_path v) ++ sl (q_lines v).
+Definition res {A : Type} (show : A -> list N) (r : result A) : list N := match r with Ok v => 365%N :: show v | Err e => [366%N; en e] end.
+Definition c_case (ext : bool) (ty oid : list N) : list N :=
+  match (if ext then mk_ext else mk_core) ty oid with
+  | Err e => [367%N; en e]
+  | Ok c => let p := print_core c in
+      p ++ [350%N] ++ res sc ((if ext then parse_ext else parse_core) p) ++
+      (if ext then [] else
+       [351%N] ++ res sc (to_extended c) ++ [352%N] ++ match to_extended c with Ok x => print_core x | Err _ => [361%N] end
+       ++ [353%N] ++ res sq (to_qualified c) ++ [354%N]
+       ++ match to_qualified c with Ok q => res (fun t : list N => t) (print_q 0%N q) | Err _ => [361%N] end)
+  end.
+Definition q_case (lim : N) (ty oid : list N) (origin : option (list N)) (visit anchor : option core) (path : option (list N))
+                  (lines : option (Z * option Z)) : list N :=
+  match mk_q ty oid origin visit anchor path lines with
+  | Err e => [367%N; en e]
+  | Ok v => match print_q lim v with
+            | Err e => [368%N; en e]
+            | Ok p => p ++ [350%N] ++ res sq (parse_q lim p) end
+  end.
+Definition lang_case (b : bool) : list N := [if b then 1%N else 0%N].
+""" + "Definition cases : list (list (list N)) := [" +
+           ";\n ".join("[" + ";\n  ".join(term(r) for r in rqs) + "]" for _, rqs in chosen) + "].\n"
+           "Eval vm_compute in map (fun rs => cksum (map cksum rs)) cases.\n")
+    EN = {"ValidationError": 1, "ValueError": 2, "TypeError": 3, "AssertionError": 4}
+    def zz(s):
+        n = int(s)
+        return [1 if n < 0 else 0, abs(n)]
+    def wd(w):
+        return [] if w == "." else [ord(ch) for ch in w]
+    def ot(t, f):
+        return [361] if t == "-" else [360] + f(t)
+    def hb(h):
+        return list(core.unhx(h))
+    def sc(t):
+        ty, h = t.split(":")
+        return wd(ty) + [362] + hb(h)
+    def sl(t):
+        if t == "-":
+            return [361]
+        p = t.split(":")
+        return [363] + zz(p[0]) if len(p) == 1 else [364] + zz(p[0]) + zz(p[1])
+    def sq(t):
+        ty, oid, origin, visit, anchor, path, ln = t.split("/")
+        return wd(ty) + [362] + hb(oid) + ot(origin, lambda x: untok_text(x)) + ot(visit, sc) + ot(anchor, sc) + ot(path, hb) + sl(ln)
+    def res(t, f):
+        return [365] + f(t[3:]) if t.startswith("ok=") else [366, EN[t[4:]]]
+    def answer(rq, r):
+        k = rq[0]
+        if k == "l":
+            return [{"t": 1, "f": 0}[r]]
+        d = kv(r)
+        if "mkerr" in d:
+            return [367, EN[d["mkerr"]]]
+        if k == "q":
+            if d["P"].startswith("err="):
+                return [368, EN[d["P"][4:]]]
+            return untok_text(d["P"][3:]) + [350] + res(d["R"], sq)
+        out = untok_text(d["P"]) + [350] + res(d["R"], sc)
+        if "X" in d:
+            out += [351] + res(d["X"], sc) + [352] + ([361] if d["XP"] == "-" else untok_text(d["XP"]))
+            out += [353] + res(d["Q"], sq) + [354] + ([361] if d["QP"] == "-" else res(d["QP"], untok_text))
+        return out
+    flat = [r for _, rqs in chosen for r in rqs]
+    resp = iter(core.run_driver(ID, flat))
+    exp = [core.py_cksum([core.py_cksum(answer(rq, next(resp))) for rq in rqs]) for _, rqs in chosen]
+    return src, exp
